@@ -464,6 +464,8 @@ pub struct ElemDesc {
     pub variant_fields: Option<BodyLeaf>,
     /// newtype over another element receiver
     pub newtype_of: Option<&'static str>,
+    pub container_default: Option<ContainerDefault>,
+    pub container_post: Option<(Post, u32)>,
 }
 
 pub fn elem(name: &'static str, kind: ElemKind, attr_names: Vec<&'static str>, fields: Vec<FieldDesc>) -> ElemDesc {
@@ -482,6 +484,8 @@ pub fn elem(name: &'static str, kind: ElemKind, attr_names: Vec<&'static str>, f
         data: None,
         variant_fields: None,
         newtype_of: None,
+        container_default: None,
+        container_post: None,
     }
 }
 
@@ -554,6 +558,35 @@ pub fn elem_receivers() -> BTreeMap<&'static str, ElemDesc> {
         supports: Some(Supports::Sets { structs: set(false, true, false, false), enums: set(false, false, false, false) }),
         data: Some(DataDesc::Data { variant: BodyLeaf::Unit, field: BodyLeaf::Probe(4201) }),
         ..elem("DI6", DeriveInput, vec!["a"], vec![f("p", opt(pm(4202)))])
+    });
+    // more of the option space on the outer impls: from_ident on every kind, container default /
+    // and_then / map, allow_unknown_fields
+    add(ElemDesc {
+        has_ident: true,
+        from_ident: Some(4500),
+        container_post: Some((Post::AndThen, 4510)),
+        allow_unknown: true,
+        ..elem("FR5", Field, vec!["a"], vec![f("p", pm(4501)), f("o", opt(pm(4502)))])
+    });
+    add(ElemDesc {
+        has_ident: true,
+        from_ident: Some(4600),
+        variant_fields: Some(BodyLeaf::Probe(4603)),
+        ..elem("VR3", Variant, vec!["a"], vec![f("p", pm(4601)), f("o", opt(pm(4602)))])
+    });
+    add(ElemDesc {
+        has_ident: true,
+        container_default: Some(ContainerDefault::Trait(4700)),
+        container_post: Some((Post::Map, 4710)),
+        ..elem("TR2", TypeParam, vec!["a"], vec![f("p", pm(4701)), f("o", opt(pm(4702)))])
+    });
+    add(ElemDesc {
+        has_ident: true,
+        allow_unknown: true,
+        container_post: Some((Post::AndThen, 4810)),
+        generics: Some(GenericsDesc::Full("TR2")),
+        data: Some(DataDesc::Data { variant: BodyLeaf::Recv("VR3"), field: BodyLeaf::Recv("FR5") }),
+        ..elem("DI8", DeriveInput, vec!["a"], vec![f("p", opt(pm(4801))), f("m", pm(4802)).multiple()])
     });
     add(elem(
         "AT1",
